@@ -135,6 +135,7 @@ class FakeAsyncioTransport(asyncio.Transport):
         self.write_paused = False
         self.reading_paused = False
         self.closing = False
+        self.force_closed = False
         self.conn_lost = False
         self.eof_written = False
         self.accept_now = lambda n: n  # how many of n bytes the kernel takes immediately (scenario overrides)
@@ -193,8 +194,8 @@ class FakeAsyncioTransport(asyncio.Transport):
         if self.eof_written:
             raise RuntimeError("Cannot call write() after write_eof()")
         data = bytes(data)
-        if self.conn_lost or not data:
-            return
+        if self.conn_lost or self.force_closed or not data:
+            return  # asyncio drops (and warns about) writes after a fatal error
         if not self.buffer:
             n = self.accept_now(len(data))
             if n:
@@ -211,8 +212,8 @@ class FakeAsyncioTransport(asyncio.Transport):
 
     def flush(self, n):
         """the kernel takes n more bytes from the user-space buffer (socket became writable)"""
-        if self.conn_lost:
-            return
+        if self.conn_lost or self.force_closed:
+            return  # after a fatal error asyncio removes the writer: no more write-ready callbacks
         n = min(n, len(self.buffer))
         if n:
             self.wire.append(bytes(self.buffer[:n]))
@@ -239,9 +240,10 @@ class FakeAsyncioTransport(asyncio.Transport):
 
     def lose(self, exc):
         """fatal error / abort: connection_lost is delivered on the next loop iteration, buffered bytes are dropped"""
-        if self.conn_lost:
+        if self.conn_lost or self.force_closed:
             return
         self.closing = True
+        self.force_closed = True
         self.buffer.clear()
         self._soon(self._call_connection_lost, exc)
 
